@@ -95,8 +95,18 @@ type Exec struct {
 	globalVal   map[string]Term
 	lockSnap    *State
 	allocKinds  map[string]bool
+	axiomText   map[string]string
+	spawns      []spawned
+	inSpawn     bool
 	methodVals  map[string]methodVal
 	litVals     map[string]*ast.FuncLit
+}
+
+type spawned struct {
+	call *ast.CallExpr
+	fr   *Frame
+	st   *State
+	pos  string
 }
 
 type methodVal struct {
@@ -106,7 +116,7 @@ type methodVal struct {
 
 func NewExec(p *Program, smtStr bool) *Exec {
 	return &Exec{prog: p, vc: NewVC(smtStr), obIndex: map[string]*Obligation{}, init0: map[string]Term{}, noteSet: map[string]bool{},
-		dropped: map[string]bool{}, externs: map[string]bool{}, inlined: map[string]bool{}, havocs: map[string]bool{}, maxInl: 6, safety: true, globalVal: map[string]Term{}, allocKinds: map[string]bool{}, methodVals: map[string]methodVal{}, litVals: map[string]*ast.FuncLit{}}
+		dropped: map[string]bool{}, externs: map[string]bool{}, inlined: map[string]bool{}, havocs: map[string]bool{}, maxInl: 6, safety: true, globalVal: map[string]Term{}, allocKinds: map[string]bool{}, axiomText: map[string]string{}, methodVals: map[string]methodVal{}, litVals: map[string]*ast.FuncLit{}}
 }
 
 func (e *Exec) note(format string, a ...any) {
@@ -488,7 +498,11 @@ func (e *Exec) stmt(s ast.Stmt, st *State, fr *Frame) Flow {
 		// argument-less unlock/done/close calls and closures, so nothing to snapshot.
 		return Flow{norm: st}
 	case *ast.GoStmt:
-		e.dropped["go statement body at "+e.prog.pos(x)+" (runs concurrently; not part of this activation)"] = true
+		// the goroutine runs concurrently: not part of this activation, but it is verified separately
+		// (started from an arbitrary later state) against the contract's `spawn modifies` clause
+		if !e.inSpawn {
+			e.spawns = append(e.spawns, spawned{x.Call, fr, st.clone(), e.prog.pos(x)})
+		}
 		return Flow{norm: st}
 	case *ast.SendStmt:
 		c := e.ctx(st, fr)
